@@ -5,7 +5,6 @@ import (
 	"go/token"
 	"go/types"
 	"regexp"
-	"sort"
 	"strings"
 
 	"golang.org/x/tools/go/ssa"
@@ -575,6 +574,22 @@ func ruleHashKill(c *Ctx, r *Rep) {
 		}
 	}
 	if !wrote {
+		// a digest helper func([]byte) []byte: New, Write(its parameter), Sum
+		for _, ci := range callsIn(h) {
+			g := ci.Common().StaticCallee()
+			if g == nil || !c.InModule(g) || g.Blocks == nil || len(g.Params) != 1 || len(ci.Common().Args) != 1 {
+				continue
+			}
+			for _, ci2 := range callsIn(g) {
+				cc := ci2.Common()
+				if cc.IsInvoke() && cc.Method.Name() == "Write" && typeIs(cc.Value.Type(), "hash", "Hash") && cc.Args[0] == ssa.Value(g.Params[0]) {
+					wrote = true
+					r.Check(ci.Common().Args[0] == jsonBytes, "hashed-bytes|"+fk, c.Pos(ci.Pos()), "the hash is fed the marshalled bytes themselves (through "+c.FuncKey(g)+")", ci.Common().Args[0].String())
+				}
+			}
+		}
+	}
+	if !wrote {
 		r.Bad("hashed-bytes|"+fk, c.FnPos(h), "hash.Write(json bytes) in the hashing method", "not found")
 	}
 	for f := range c.Graph().Reach(h) {
@@ -584,93 +599,335 @@ func ruleHashKill(c *Ctx, r *Rep) {
 			}
 		}
 	}
-	// kills: stores of zero values into the copy before the marshal
-	type kill struct {
-		field  string
-		guards string
-		pos    token.Pos
+	// what the copy looks like when it is marshalled, on every path (helpers that return a blanked copy of a sub-struct
+	// are walked too): which fields were overwritten, with what, under which flag values
+	hw := &hashWalker{c: c, limit: 400}
+	outcomes := hw.walkFn(h, copyAlloc, "", marshal)
+	if hw.undecided != "" || len(outcomes) == 0 {
+		r.Undecided("shape:blanking|"+fk, c.FnPos(h), "cannot follow how the copy is prepared for hashing: "+hw.undecided)
+		return
 	}
-	var kills []kill
-	for _, b := range h.Blocks {
-		for _, ins := range b.Instrs {
-			st, ok := ins.(*ssa.Store)
-			if !ok {
-				continue
+	known := []string{"Validity.IsStatic", "Validity.IsSet", "Validity.IsUntilStatic"}
+	badAlways := map[string]string{}
+	var badFrom, badUntil, unexpected, badValue []string
+	nComp := 0
+	for _, oc := range outcomes {
+		var free []string
+		val := map[string]bool{}
+		for _, k := range known {
+			if v, ok := oc.atoms[k]; ok {
+				val[k] = v
+			} else {
+				free = append(free, k)
 			}
-			root, path := fieldPathOf(st.Addr)
-			if root != ssa.Value(copyAlloc) || path == "" {
-				continue
+		}
+		desc := oc.describe()
+		for mask := 0; mask < 1<<len(free); mask++ {
+			for i, k := range free {
+				val[k] = mask&(1<<i) != 0
 			}
-			if !instrDominates(st, marshal) && !canReachInstr(st, marshal) {
-				continue
-			}
-			zero := false
-			if k, isK := st.Val.(*ssa.Const); isK && (k.Value == nil || (k.Value.Kind() == constant.String && constant.StringVal(k.Value) == "")) {
-				zero = true
-			}
-			if !zero {
-				r.Bad("kill-value|"+path, c.Pos(st.Pos()), "fields are only blanked (zero value) before hashing", st.Val.String())
-				continue
-			}
-			var gs []string
-			for _, g := range guardsOf(b) {
-				if f := fieldLoad(g.Cond); f != nil {
-					gs = append(gs, sprintf("%s=%v", f.Name(), g.Truth))
-				} else {
-					gs = append(gs, "?")
+			nComp++
+			volatile := !(val["Validity.IsStatic"] && val["Validity.IsSet"])
+			want := map[string]bool{"Alias": true, "Profile": true}
+			if volatile {
+				want["Validity.From"] = true
+				if !val["Validity.IsUntilStatic"] {
+					want["Validity.Until"] = true
 				}
 			}
-			sort.Strings(gs)
-			kills = append(kills, kill{path, strings.Join(gs, "∧"), st.Pos()})
+			for f, how := range oc.fields {
+				if how != "zero" {
+					badValue = append(badValue, f+" <- "+how+" ["+desc+"]")
+					continue
+				}
+				if !want[f] {
+					switch f {
+					case "Validity.From":
+						badFrom = append(badFrom, "blanked although the start is an explicit date of this configuration ["+desc+"]")
+					case "Validity.Until":
+						badUntil = append(badUntil, "blanked although the end is to be kept ["+desc+"]")
+					default:
+						unexpected = append(unexpected, f)
+					}
+				}
+			}
+			for f := range want {
+				if oc.fields[f] == "zero" {
+					continue
+				}
+				switch f {
+				case "Alias", "Profile":
+					badAlways[f] = "not blanked on a path [" + desc + "]"
+				case "Validity.From":
+					badFrom = append(badFrom, "kept although the start is run-relative or inherited ["+desc+"]")
+				case "Validity.Until":
+					badUntil = append(badUntil, "kept although start and end are run-relative ["+desc+"]")
+				}
+			}
 		}
-	}
-	got := map[string][]string{}
-	for _, k := range kills {
-		got[k.field] = append(got[k.field], k.guards)
 	}
 	for _, f := range []string{"Alias", "Profile"} {
-		gs := got[f]
-		r.Check(len(gs) == 1 && gs[0] == "", "killed-always|"+f, c.FnPos(h), f+" is blanked on every path (the hash does not depend on file name, alias or profile name)", strings.Join(gs, " | "))
-		delete(got, f)
+		r.Check(badAlways[f] == "", "killed-always|"+f, c.FnPos(h), f+" is blanked on every path (the hash does not depend on file name, alias or profile name)", badAlways[f])
 	}
-	// From: killed iff !(IsStatic && IsSet): the store sits behind the false edge of IsStatic or of IsSet (two paths into one block, so no single dominating guard)
-	a := &atomizer{c: c, pv: c.newProv(), fn: h}
-	for _, k := range kills {
-		if k.field != "Validity.From" && k.field != "Validity.Until" {
-			continue
-		}
-		var blk *ssa.BasicBlock
-		for _, b := range h.Blocks {
-			for _, ins := range b.Instrs {
-				if ins.Pos() == k.pos {
-					blk = b
-				}
-			}
-		}
-		d, _ := a.pathsDNF(h.Blocks[0], blk, 64)
-		sd := flagDNF(d)
-		no := func(names ...string) []literal {
-			var out []literal
-			for _, n := range names {
-				out = append(out, literal{n, false})
-			}
-			return out
-		}
-		switch k.field {
-		case "Validity.From":
-			want := [][]literal{no("IsStatic"), no("IsSet")}
-			r.Check(dnfEqual(sd, want), "killed-when|Validity.From", c.Pos(k.pos), "From is blanked iff the start is not an explicit date of this configuration: "+dnfString(want), dnfString(sd))
-		case "Validity.Until":
-			want := [][]literal{no("IsStatic", "IsUntilStatic"), no("IsSet", "IsUntilStatic")}
-			r.Check(dnfEqual(sd, want), "killed-when|Validity.Until", c.Pos(k.pos), "Until is blanked iff the start is run-relative/inherited and the end was not given as an explicit date: "+dnfString(want), dnfString(sd))
-		}
-		delete(got, k.field)
-	}
-	for f := range got {
+	r.Check(len(badFrom) == 0, "killed-when|Validity.From", c.FnPos(h), "From is blanked iff the start is not an explicit date of this configuration: ¬IsStatic ∨ ¬IsSet", strings.Join(head(uniq(badFrom), 2), " ;; "))
+	r.Check(len(badUntil) == 0, "killed-when|Validity.Until", c.FnPos(h), "Until is blanked iff the start is run-relative/inherited and the end was not given as an explicit date: (¬IsStatic ∨ ¬IsSet) ∧ ¬IsUntilStatic", strings.Join(head(uniq(badUntil), 2), " ;; "))
+	for _, f := range uniq(unexpected) {
 		r.Bad("killed-unexpected|"+f, c.FnPos(h), "only Alias, Profile and run-relative validity bounds are blanked", f+" is blanked too: edits of it no longer change the hash")
 	}
-	r.Check(len(kills) >= 4, "kill-sites|"+fk, c.FnPos(h), "Alias, Profile, Validity.From and Validity.Until are blanked before hashing", sprintf("%d blanking stores", len(kills)))
+	for _, b := range head(uniq(badValue), 3) {
+		r.Bad("kill-value|"+b[:strings.Index(b, " ")], c.FnPos(h), "fields are only blanked (zero value) before hashing", b)
+	}
+	r.Check(nComp >= 4, "kill-sites|"+fk, c.FnPos(h), "the blanking was followed on every path to the marshalling", sprintf("%d paths, %d flag completions", len(outcomes), nComp))
 }
+
+// hashWalker enumerates the paths of a loop-free function up to a stop instruction and tracks what is stored into the
+// fields of one struct value (the copy being prepared).
+type hashWalker struct {
+	c         *Ctx
+	limit     int
+	n         int
+	undecided string
+}
+
+type hashOutcome struct {
+	atoms  map[string]bool
+	order  []string
+	fields map[string]string // dotted path -> "zero" | description of another value
+}
+
+func (o *hashOutcome) describe() string { return strings.Join(o.order, " ") }
+
+func (o *hashOutcome) clone() *hashOutcome {
+	n := &hashOutcome{atoms: map[string]bool{}, fields: map[string]string{}, order: append([]string{}, o.order...)}
+	for k, v := range o.atoms {
+		n.atoms[k] = v
+	}
+	for k, v := range o.fields {
+		n.fields[k] = v
+	}
+	return n
+}
+
+func isZeroConst(v ssa.Value) bool {
+	k, ok := v.(*ssa.Const)
+	if !ok {
+		return false
+	}
+	if k.Value == nil {
+		return true
+	}
+	switch k.Value.Kind() {
+	case constant.String:
+		return constant.StringVal(k.Value) == ""
+	case constant.Bool:
+		return !constant.BoolVal(k.Value)
+	case constant.Int:
+		return k.Int64() == 0
+	}
+	return false
+}
+
+// walkFn walks fn from its entry. obj is the alloc holding the struct under preparation; prefix is the dotted path of
+// that struct inside the value finally hashed. The walk ends at stop (a call in fn) or, when stop is nil, at the
+// returns of fn (a helper that hands back the prepared struct: the return must be the alloc's content or the untouched
+// parameter).
+func (w *hashWalker) walkFn(fn *ssa.Function, obj *ssa.Alloc, prefix string, stop ssa.Instruction) []*hashOutcome {
+	if hasLoop(fn) {
+		w.undecided = c2(w.c, fn) + " has a loop"
+		return nil
+	}
+	var outs []*hashOutcome
+	phis := map[*ssa.Phi]ssa.Value{}
+	var resolve func(v ssa.Value) (ssa.Value, bool)
+	resolve = func(v ssa.Value) (ssa.Value, bool) {
+		neg := false
+		for i := 0; i < 20; i++ {
+			if phi, ok := v.(*ssa.Phi); ok {
+				if pv, ok := phis[phi]; ok {
+					v = pv
+					continue
+				}
+			}
+			if u, ok := v.(*ssa.UnOp); ok && u.Op == token.NOT {
+				v, neg = u.X, !neg
+				continue
+			}
+			break
+		}
+		return v, neg
+	}
+	pathOf := func(addr ssa.Value) (string, bool) {
+		root, path := fieldPathOf(addr)
+		if root == ssa.Value(obj) && path != "" {
+			if prefix != "" {
+				return prefix + "." + path, true
+			}
+			return path, true
+		}
+		return "", false
+	}
+	var walk func(prev, b *ssa.BasicBlock, st *hashOutcome, from int)
+	walk = func(prev, b *ssa.BasicBlock, st *hashOutcome, from int) {
+		if w.n > w.limit || w.undecided != "" {
+			return
+		}
+		if prev != nil && from == 0 {
+			for i, p := range b.Preds {
+				if p != prev {
+					continue
+				}
+				for _, ins := range b.Instrs {
+					phi, isPhi := ins.(*ssa.Phi)
+					if !isPhi {
+						break
+					}
+					v := phi.Edges[i]
+					if inner, ok := v.(*ssa.Phi); ok {
+						if pv, ok := phis[inner]; ok {
+							v = pv
+						}
+					}
+					phis[phi] = v
+				}
+				break
+			}
+		}
+		for idx := from; idx < len(b.Instrs); idx++ {
+			ins := b.Instrs[idx]
+			if ins == stop {
+				w.n++
+				outs = append(outs, st.clone())
+				return
+			}
+			switch x := ins.(type) {
+			case *ssa.Store:
+				path, mine := pathOf(x.Addr)
+				if !mine {
+					continue
+				}
+				if isZeroConst(x.Val) {
+					st.fields[path] = "zero"
+					continue
+				}
+				// c.X = helper(c.X): a module method on the sub-struct's value that returns the same type
+				if call, ok := x.Val.(*ssa.Call); ok {
+					g := call.Call.StaticCallee()
+					if g != nil && w.c.InModule(g) && g.Blocks != nil && len(g.Params) == 1 && len(call.Call.Args) == 1 && g.Signature.Results().Len() == 1 && types.Identical(g.Params[0].Type(), g.Signature.Results().At(0).Type()) {
+						if ld, ok := call.Call.Args[0].(*ssa.UnOp); ok && ld.Op == token.MUL {
+							if ap, mine2 := pathOf(ld.X); mine2 && ap == path {
+								// the helper's own copy of its parameter
+								var galloc *ssa.Alloc
+								for _, gi := range g.Blocks[0].Instrs {
+									if gs, ok := gi.(*ssa.Store); ok && gs.Val == ssa.Value(g.Params[0]) {
+										galloc, _ = gs.Addr.(*ssa.Alloc)
+									}
+								}
+								sub := &hashWalker{c: w.c, limit: w.limit}
+								var subOuts []*hashOutcome
+								if galloc != nil {
+									subOuts = sub.walkFn(g, galloc, path, nil)
+								}
+								if sub.undecided != "" || len(subOuts) == 0 {
+									w.undecided = "helper " + c2(w.c, g) + ": " + sub.undecided
+									return
+								}
+								for _, so := range subOuts {
+									ns := st.clone()
+									consistent := true
+									for k, v := range so.atoms {
+										if cur, ok := ns.atoms[k]; ok && cur != v {
+											consistent = false
+										}
+										ns.atoms[k] = v
+									}
+									if !consistent {
+										continue
+									}
+									ns.order = append(ns.order, so.order...)
+									for k, v := range so.fields {
+										ns.fields[k] = v
+									}
+									walk(prev, b, ns, idx+1)
+								}
+								return
+							}
+						}
+					}
+				}
+				st.fields[path] = x.Val.String()
+			case *ssa.Return:
+				if stop != nil {
+					return // a return before the marshalling: not a hashing path (panic paths end elsewhere)
+				}
+				res := x.Results[0]
+				okRet := res == ssa.Value(fn.Params[0]) && len(st.fields) == 0
+				if ld, ok := res.(*ssa.UnOp); ok && ld.Op == token.MUL && ld.X == ssa.Value(obj) {
+					okRet = true
+				}
+				if !okRet {
+					w.undecided = "returns something other than its prepared copy at " + w.c.Pos(x.Pos())
+					return
+				}
+				w.n++
+				outs = append(outs, st.clone())
+				return
+			case *ssa.If:
+				cond, neg := resolve(x.Cond)
+				if k, ok := cond.(*ssa.Const); ok && k.Value != nil && k.Value.Kind() == constant.Bool {
+					t := constant.BoolVal(k.Value) != neg
+					if t {
+						walk(b, b.Succs[0], st, 0)
+					} else {
+						walk(b, b.Succs[1], st, 0)
+					}
+					return
+				}
+				key := ""
+				if ld, ok := cond.(*ssa.UnOp); ok && ld.Op == token.MUL {
+					if p, mine := pathOf(ld.X); mine {
+						key = p
+					}
+				}
+				if key == "" {
+					key = "?" + cond.String()
+				}
+				if cur, ok := st.atoms[key]; ok {
+					if cur != neg {
+						walk(b, b.Succs[0], st, 0)
+					} else {
+						walk(b, b.Succs[1], st, 0)
+					}
+					return
+				}
+				for _, v := range []bool{true, false} {
+					ns := st.clone()
+					ns.atoms[key] = v
+					ns.order = append(ns.order, sprintf("%s=%v", key, v))
+					saved := map[*ssa.Phi]ssa.Value{}
+					for k2, v2 := range phis {
+						saved[k2] = v2
+					}
+					if v != neg {
+						walk(b, b.Succs[0], ns, 0)
+					} else {
+						walk(b, b.Succs[1], ns, 0)
+					}
+					phis = saved
+				}
+				return
+			case *ssa.Jump:
+				walk(b, b.Succs[0], st, 0)
+				return
+			case *ssa.Panic:
+				return
+			}
+		}
+	}
+	walk(nil, fn.Blocks[0], &hashOutcome{atoms: map[string]bool{}, fields: map[string]string{}}, 0)
+	return outs
+}
+
+func c2(c *Ctx, f *ssa.Function) string { return c.FuncKey(f) }
 
 // flagDNF rewrites a DNF over field-load atoms to the bare flag names.
 func flagDNF(d [][]literal) [][]literal {
